@@ -204,7 +204,24 @@ func genCase(t *rapid.T) Case {
 		}
 		l := lines[i]
 		sp := bytes.IndexByte(l, ' ')
-		switch rapid.IntRange(0, 5).Draw(t, "mutation") {
+		switch rapid.IntRange(0, 9).Draw(t, "mutation") {
+		case 6: // time stamp outside int32 (the rest of the line would be a fine record)
+			big := rapid.SampledFrom([]string{"2147483648", "-2147483649", "99999999999", "4294967296"}).Draw(t, "bigTS")
+			l = append([]byte(big), l[sp:]...)
+			c.Muts = append(c.Muts, "timestamp-out-of-range")
+		case 7: // damaged time stamp followed by a complete record on the same line
+			bad := rapid.SampledFrom([]string{"1x", "x", "-", "12z", "2147483648"}).Draw(t, "badTS")
+			l = append([]byte(bad+" "), l...)
+			c.Muts = append(c.Muts, "bad-timestamp-then-record-on-same-line")
+		case 8: // doubled separator
+			l = append(l[:sp+1:sp+1], append([]byte{' '}, l[sp+1:]...)...)
+			c.Muts = append(c.Muts, "double-separator")
+		case 9: // separator inside the hex data: the tail looks like a record of its own
+			if len(l)-sp > 6 {
+				p := sp + 3
+				l = append(l[:p:p], append([]byte{' '}, l[p:]...)...)
+				c.Muts = append(c.Muts, "separator-inside-data")
+			}
 		case 0: // remove one hex digit
 			p := rapid.IntRange(sp+1, len(l)-2).Draw(t, "hexPos")
 			l = append(l[:p:p], l[p+1:]...)
@@ -246,7 +263,7 @@ func genCase(t *rapid.T) Case {
 }
 
 var streams = ev.NewCheck("C19", "line-streams",
-	"rapid: 1..12 records (time stamps over int32 incl. negatives and extremes, messages of 1..2000 arbitrary bytes) encoded like the driver (\"%d %X\\n\"); optionally lines damaged by: one hex digit removed, a hex digit or a time-stamp digit replaced by a character from [g-zG-Z_#@!,;], separator removed, newline removed (two lines merge / stream ends unterminated), message removed; read from memory, one byte per call, a single read and 1..4 random partitions, each also with the last bytes delivered together with io.EOF; oracle = line model (split at newline; well formed iff -?[0-9]+ SP ([0-9A-F]{2})+): calling ReadAndConvert until io.EOF yields exactly the records of the well-formed lines in order, at least one error per malformed line, no panic, terminates within len(stream)+3 calls, and the same outcome sequence for every fragmentation; non-trivial = >= 2 records and (a read boundary inside a line or a well-formed line after a malformed one); distinct by stream bytes",
+	"rapid: 1..12 records (time stamps over int32 incl. negatives and extremes, messages of 1..2000 arbitrary bytes) encoded like the driver (\"%d %X\\n\"); optionally lines damaged by: one hex digit removed, a hex digit or a time-stamp digit replaced by a character from [g-zG-Z_#@!,;], separator removed, newline removed (two lines merge / stream ends unterminated), message removed, time stamp outside int32, damaged time stamp followed by a complete record on the same line, doubled separator, separator inside the data; read from memory, one byte per call, a single read and 1..4 random partitions, each also with the last bytes delivered together with io.EOF; oracle = line model (split at newline; well formed iff -?[0-9]+ SP ([0-9A-F]{2})+): calling ReadAndConvert until io.EOF yields exactly the records of the well-formed lines in order, at least one error per malformed line, no panic, terminates within len(stream)+3 calls, and the same outcome sequence for every fragmentation; non-trivial = >= 2 records and (a read boundary inside a line or a well-formed line after a malformed one); distinct by stream bytes",
 	genCase, run)
 
 func TestPropLineStreams(t *testing.T) { streams.Rapid(t, 800, 6000) }
